@@ -245,6 +245,19 @@ class Importance(CellModifierInput):
                     data.nodes.pop()
                     data.nodes.append(value)
 
+    def _value_held(self, particle):
+        """
+        The importance this cell holds for the particle, whether or not the particle is (still) in the
+        problem's mode: what is held is what is written, removing a particle from the mode does not
+        change the cells.
+
+        :rtype: float
+        """
+        try:
+            return self._particle_importances[particle]["data"][0].value
+        except KeyError:
+            return 0.0
+
     def _format_tree(self):
         if self.in_cell_block:
             particles_printed = set()
@@ -261,8 +274,8 @@ class Importance(CellModifierInput):
                     if other_part != particle:
                         # a particle that has been printed already must not be printed again
                         if other_part not in particles_printed and math.isclose(
-                            self[particle],
-                            self[other_part],
+                            self._value_held(particle),
+                            self._value_held(other_part),
                             rel_tol=rel_tol,
                             abs_tol=abs_tol,
                         ):
